@@ -199,7 +199,8 @@ impl CaseInput for ReqCase {
         } else {
             None
         };
-        let url = gen::endpoint(r, kind == 7);
+        // 1 in 40: an endpoint the url crate accepts but http::Uri rejects (too long): zero HTTP calls, Other error
+        let url = if r.chance(1, 40) { format!("https://example.com/{}", "a".repeat(70_000)) } else { gen::endpoint(r, kind == 7) };
         ReqCase {
             kind,
             basic,
